@@ -1,8 +1,10 @@
 #!/bin/bash
 # process_seeds.sh <Cnn-N>...: confirm each seed in /tmp/seed_out and run the property's quick check against it
 # snapshot of the harness sources (must compile at this moment); the harness may be edited while the batch runs
-rsync -a --delete --exclude target /verif/harness/ /tmp/harness-snap/
-export VERIF_HARNESS_DIR=/tmp/harness-snap
+# VERIF_SNAP / VERIF_SEED_WT / VERIF_ALT_TARGET / VERIF_SEED_OUT choose other scratch directories (to run next to a benign batch)
+snap="${VERIF_SNAP:-/tmp/harness-snap}"
+rsync -a --delete --exclude target /verif/harness/ "$snap/"
+export VERIF_HARNESS_DIR="$snap"
 for s in "$@"; do
   p="${s%%-*}"
   if [ -f /tmp/seed_out/$s/demo_append.rs ]; then c=$(tools/confirm_seed_gui.sh /tmp/seed_out/$s 2>&1 | tail -1); else c=$(tools/confirm_seed.sh /tmp/seed_out/$s 2>&1 | tail -1); fi
